@@ -2,6 +2,7 @@ package ksim
 
 import (
 	"fmt"
+	"strings"
 	"time"
 )
 
@@ -64,6 +65,36 @@ func DrawScenario(t *Tape, property string) (*Scenario, Config) {
 		sc.Steps = append(sc.Steps, st)
 	}
 	sc.RolloutID = t.Next(3) == 1
+	// traffic routing
+	switch t.Pick(3, 2, 2) {
+	case 1:
+		sc.Traffic = "ingress-nginx"
+	case 2:
+		sc.Traffic = "gateway"
+	}
+	if sc.Traffic != "" {
+		sc.GraceSec = []int{0, 1, 3, 5}[t.Next(4)]
+		partition := sc.Family != "deploy-canary"
+		for i := range sc.Steps {
+			st := &sc.Steps[i]
+			if partition && strings.HasSuffix(st.Replicas, "%") {
+				p := 0
+				fmt.Sscanf(st.Replicas, "%d%%", &p)
+				if p > 50 {
+					continue // partition style: percentage steps above 50% cannot carry traffic
+				}
+			}
+			switch t.Pick(2, 3, 1) {
+			case 1:
+				st.Weight = 1 + t.Next(100)
+				if t.Next(3) == 0 {
+					st.Weight = []int{5, 10, 20, 50, 100}[t.Next(5)]
+				}
+			case 2:
+				st.Header = "x-canary"
+			}
+		}
+	}
 	drawEvents(t, sc)
 	sc.HashCompat = t.Next(2) == 1
 
@@ -87,7 +118,7 @@ var stepStates = []string{"BeforeStepUpgrade", "StepUpgrade", "StepTrafficRoutin
 // drawEvents: 0..2 scripted disturbances, each triggered when the rollout reaches a drawn (step, sub-state).
 func drawEvents(t *Tape, sc *Scenario) {
 	n := t.Pick(5, 4, 2)
-	kinds := []string{"scale", "rollback", "release-v3", "pause", "jump", "edit-plan", "disable", "delete-rollout", "hostile-jump", "unpause-workload"}
+	kinds := []string{"scale", "rollback", "release-v3", "pause", "jump", "edit-plan", "disable", "delete-rollout", "hostile-jump", "unpause-workload", "rollback-early", "release-v3-early", "reissue-rollout-id"}
 	for i := 0; i < n; i++ {
 		ev := UserEvent{Kind: kinds[t.Next(len(kinds))]}
 		ev.AtStep = 1 + t.Next(len(sc.Steps))
